@@ -40,21 +40,25 @@ AfterBuildObs(b, obs) ==
   LET r == Ready(b) IN
   IF obs.res = "dup" THEN [r EXCEPT !.failed = TRUE] ELSE [r EXCEPT !.nbuilt = r.nbuilt + 1]
 
-\* which listed property an observation that is not allowed speaks about
+\* which listed properties an observation that is not allowed speaks about (every one it contradicts)
 Why(b, obs) ==
-  LET P == PayloadOf(obs) IN
-  IF obs.res = "unreadable" THEN
-     "C01 C02 built token is not accepted by the matching parser"
-       \o (IF "alt" \in DOMAIN obs /\ obs.alt \in {"nofooter", "neither"} THEN "; C05 it is accepted without the footer set on the builder" ELSE "")
-       \o (IF "alt" \in DOMAIN obs /\ obs.alt \in {"noassertion", "neither"} THEN "; C06 it is accepted without the assertion set on the builder" ELSE "")
-  ELSE IF obs.res = "ok" /\ ~FreshNonce(obs) THEN "C10 nonce repeated"
-  ELSE IF ~PreludeRead(b, obs) THEN "C01 C02 C11 C12 PasetoParser::default() on the built token: " \o obs.pread
-  ELSE IF obs.res = "dup" /\ ~MayFail(b) THEN "C17 duplicate-claim error without a repeated key"
-  ELSE IF obs.res = "dup" THEN "C17 error names a key that was not repeated"
-  ELSE IF obs.res = "ok" /\ MustFail(b) THEN "C17 token built although a key was supplied twice (or after a failed build)"
-  ELSE IF obs.res = "ok" /\ b.layer = "prelude" THEN "C13 C17 payload differs from defaults/caller values"
-  ELSE IF obs.res = "ok" THEN "C14 payload differs from the claims that were set"
-  ELSE "C13 C14 C17 build returned neither a token nor the duplicate-claim error"
+  LET P == PayloadOf(obs)
+      has(k) == \E p \in P : p[1] = k
+      unread == obs.res = "unreadable"
+      okres == obs.res = "ok"
+  IN
+  (IF unread THEN "C01 C02 built token is not accepted by the matching parser; " ELSE "")
+  \o (IF unread /\ "alt" \in DOMAIN obs /\ obs.alt \in {"nofooter", "neither"} THEN "C05 it is accepted without the footer set on the builder; " ELSE "")
+  \o (IF unread /\ "alt" \in DOMAIN obs /\ obs.alt \in {"noassertion", "neither"} THEN "C06 it is accepted without the assertion set on the builder; " ELSE "")
+  \o (IF okres /\ ~FreshNonce(obs) THEN "C10 nonce repeated; " ELSE "")
+  \o (IF okres /\ ~PreludeRead(b, obs) THEN "C01 C02 C11 C12 PasetoParser::default() on the built token: " \o obs.pread \o "; " ELSE "")
+  \o (IF obs.res = "dup" /\ ~MayFail(b) THEN "C17 duplicate-claim error without a repeated key; " ELSE "")
+  \o (IF obs.res = "dup" /\ MayFail(b) /\ obs.key \notin DupNameable(b) THEN "C17 error names a key that was not repeated; " ELSE "")
+  \o (IF okres /\ MustFail(b) THEN "C17 token built although a key was supplied twice (or after a failed build); " ELSE "")
+  \o (IF okres /\ b.layer = "prelude" /\ (has("exp") <=> b.nonexp) THEN "C13 exp present iff not acknowledged is violated; " ELSE "")
+  \o (IF okres /\ b.layer = "prelude" /\ ~MustFail(b) /\ P # Payload(b) THEN "C13 C17 payload differs from defaults/caller values; " ELSE "")
+  \o (IF okres /\ b.layer # "prelude" /\ P # Payload(b) THEN "C14 payload differs from the claims that were set; " ELSE "")
+  \o (IF obs.res \notin {"ok", "dup", "unreadable"} THEN "C13 C14 C17 C09 build returned neither a token nor the duplicate-claim error: " \o obs.res \o "; " ELSE "")
 
 \* first call whose observation the specification does not allow: [step, why], step = 0 if none
 RECURSIVE Walk(_, _, _)
